@@ -21,7 +21,8 @@ EXPLANATION = (
     "non-callable/Variable getters and empty/non-Variable argument lists with LenaTypeError before any state is "
     "built; (e) get_data, get_context and get_data_context split a value by the one predicate _has_context, which recognises a pair "
     "with isinstance (subclasses of dict are contexts); (f) no closure created in a loop of the variables module captures a "
-    "per-iteration name by reference, and the conditions of _update_context read the keys type/compose/variable only.  Does not decide the nested-dictionary values (that compose lists types in order for all chains).")
+    "per-iteration name by reference, and the conditions of _update_context read the keys type/compose/variable only; (g) the list of "
+    "composed types is extended with a list (the applied variable's compose list) and appended a single type name.  Does not decide the nested-dictionary values (that compose lists types in order for all chains).")
 RULES = {
     "C14-a": "FOLD: Compose getter/context and Combine getter iterate self._vars forwards, threading the value",
     "C14-b": "FRESH: every var_context given to _update_context / stored in combine is a per-call deepcopy; __call__ does not write self",
@@ -32,6 +33,8 @@ RULES = {
              "subclasses of tuple/dict (isinstance, not an exact-type test)",
     "C14-f": "no getter built in a loop captures the loop's variable by reference (late binding: every such closure would use the last "
              "variable); whether _update_context composes is decided by the presence of types only, never by names",
+    "C14-g": "KIND: the list of composed types is extended with a list (the applied variable's own compose list) and appended a single "
+             "type; a type name (a string) is never handed to extend(), which would add its characters",
 }
 VAR = "lena.variables.variable"
 LTE = "lena.core.exceptions.LenaTypeError"
@@ -631,7 +634,45 @@ def check_closures_and_guard(ctx):
     ctx.instances_floor("C14-f/guard", n, 5, "conditions of _update_context")
 
 
+def check_compose_kinds(ctx):
+    """context.variable.compose is a list of type names.  list.extend iterates its argument: given the applied variable's
+    `type` (a string) it adds the characters of the name; the variable's own `compose` list is what has to be added when a
+    composed variable is applied after others."""
+    uc = ctx.tree.func(VAR, "Variable._update_context")
+    vc = A.func_params(uc)[1]
+    str_locals, list_locals = set(), set()
+    for st in A.walk_local(uc):
+        if isinstance(st, ast.Assign) and len(st.targets) == 1 and isinstance(st.targets[0], ast.Name):
+            v = st.value
+            if isinstance(v, ast.Subscript) and A.const(v.slice) == "type":
+                str_locals.add(st.targets[0].id)
+            elif isinstance(v, ast.Subscript) and A.const(v.slice) == "compose":
+                list_locals.add(st.targets[0].id)
+    n = 0
+    for c in A.walk_local(uc):
+        if not (isinstance(c, ast.Call) and isinstance(c.func, ast.Attribute) and c.func.attr in ("extend", "append") and len(c.args) == 1):
+            continue
+        recv = c.func.value
+        if not ((isinstance(recv, ast.Subscript) and A.const(recv.slice) == "compose") or (isinstance(recv, ast.Name) and recv.id in list_locals)):
+            continue
+        n += 1
+        a = c.args[0]
+        is_type = (isinstance(a, ast.Subscript) and A.const(a.slice) == "type") or (isinstance(a, ast.Name) and a.id in str_locals)
+        is_list = (isinstance(a, ast.Subscript) and A.const(a.slice) == "compose") or (isinstance(a, ast.Name) and a.id in list_locals) \
+            or isinstance(a, (ast.List, ast.ListComp))
+        if c.func.attr == "extend":
+            ctx.check("C14-g", is_list and not is_type, c, "_update_context extends the list of composed types with `%s`%s: extend() iterates "
+                      "its argument, so a type name is added character by character (Sequence(v0, Compose(v1, v2)) lists ['T0', 'T', '2'] "
+                      "instead of ['T0', 'T1', 'T2'])" % (A.src(a), " -- a type name, not a list" if is_type else ""),
+                      detail="compose.extend(<list of types>)", construct="compose-extend:%s" % ("type" if is_type else "other"))
+        else:
+            ctx.check("C14-g", is_type and not is_list, c, "_update_context appends `%s` to the list of composed types: a single type name is "
+                      "expected there" % A.src(a), detail="compose.append(<type name>)", construct="compose-append")
+    ctx.instances_floor("C14-g", n, 2, "growth sites of the compose list in _update_context")
+
+
 def check(ctx):
+    check_compose_kinds(ctx)
     check_closures_and_guard(ctx)
     check_value_split(ctx)
     check_black_box(ctx)
@@ -642,6 +683,7 @@ def check(ctx):
 
 
 VARIANTS = [
+    M("compose-extended-with-type-name", "lena/variables/variable.py", "                cvar[\"compose\"].extend(var_context[\"compose\"])", "                cvar[\"compose\"].extend(cur_type)", ["C14-g"]),
     M("compose-late-binding", "lena/variables/variable.py", "        def getter(value):\n            for var in self._vars:\n                value = var.getter(value)\n            return value\n", "        getter = args[0].getter\n        for var in args[1:]:\n            getter = lambda value, inner=getter: var.getter(inner(value))\n", ["C14-f"]),
     M("compose-skipped-for-same-name", "lena/variables/variable.py", "        if cvar and (\"type\" in cvar):", "        same_var = bool(cvar) and cvar.get(\"name\") == var_context.get(\"name\")\n        if cvar and (\"type\" in cvar) and not same_var:", ["C14-f"]),
     M("split-exact-types", "lena/flow/functions.py", "    if _has_context(value):\n        return (value[0], value[1])\n    else:\n        return (value, {})", "    if (type(value) is tuple and len(value) == 2\n            and type(value[1]) is dict):\n        return (value[0], value[1])\n    return (value, {})", ["C14-e"]),
